@@ -22,7 +22,7 @@ import (
 
 var c06Profile = &kvh.GenProfile{
 	Weights: map[string]int{
-		"put": 36, "del": 14, "batch": 12, "merge": 15, "reopen": 16, "get": 2, "listkeys": 1, "sync": 1,
+		"put": 36, "del": 14, "batch": 12, "merge": 15, "wipe": 2, "reopen": 16, "get": 2, "listkeys": 1, "sync": 1,
 	},
 	MaxBatchOps: 6,
 	Big:         true,
@@ -32,7 +32,7 @@ var c06Profile = &kvh.GenProfile{
 
 var c18Profile = &kvh.GenProfile{
 	Weights: map[string]int{
-		"put": 44, "del": 12, "batch": 10, "merge": 16, "reopen": 16, "get": 1,
+		"put": 44, "del": 12, "batch": 10, "merge": 16, "wipe": 2, "reopen": 16, "get": 1,
 	},
 	MaxBatchOps: 5,
 	Big:         true,
